@@ -28,7 +28,9 @@ import (
 	"sync"
 	"time"
 
+	"github.com/golang/protobuf/ptypes/empty"
 	"github.com/sirupsen/logrus"
+	pb "massnet.org/mass-wallet/api/proto"
 	"verifharness/internal/rng"
 	"verifharness/internal/sim"
 )
@@ -126,6 +128,7 @@ func buildScenario(scen string, r *rng.R) (*World, error) {
 		if err := wd.addPending(); err != nil {
 			return fail(err)
 		}
+	case "hints":
 	case "removed":
 		if err := wd.addPending(); err != nil {
 			return fail(err)
@@ -233,6 +236,9 @@ func worker(scen string, inst, part, nreq, only int, path string) int {
 	}
 	if scen == "race-remove" {
 		return runRace(wd, scen, inst, part)
+	}
+	if scen == "hints" {
+		return runHints(wd, scen, inst, part)
 	}
 	p := buildPools(wd)
 	ms := apiMethods(wd.api)
@@ -355,6 +361,55 @@ func runRace(wd *World, scen string, inst, part int) int {
 	}
 	v, d := wd.liveness()
 	emit("L\t%s\t%d\t%d\t%s\t%s", scen, inst, part, v, clean(d))
+	return 0
+}
+
+// runHints measures how long ImportMnemonic works (holding WalletManager.mu and the database write
+// transaction) as a function of the external_index / internal_index hints of the request.
+func runHints(wd *World, scen string, inst, part int) int {
+	sizes := []uint32{20, 200, 2000, 20000}
+	n := sizes[inst%len(sizes)]
+	internal := inst >= len(sizes)
+	C, err := wd.newWallet("passH@verif9")
+	if err != nil {
+		emit("X\t%s\t%d\t%d\t0\tharness\t%s", scen, inst, part, clean(err.Error()))
+		return 0
+	}
+	if err := wd.removeFully(C); err != nil {
+		emit("X\t%s\t%d\t%d\t0\tharness\t%s", scen, inst, part, clean(err.Error()))
+		return 0
+	}
+	req := &pb.ImportMnemonicRequest{Mnemonic: C.mnemonic, Passphrase: C.pass, Remarks: "hint"}
+	if internal {
+		req.InternalIndex = n
+	} else {
+		req.ExternalIndex = n
+	}
+	t0 := time.Now()
+	// while the import works, does another request get an answer?
+	blocked := make(chan time.Duration, 1)
+	go func() {
+		time.Sleep(20 * time.Millisecond)
+		t1 := time.Now()
+		wd.api.Wallets(context.Background(), &empty.Empty{})
+		blocked <- time.Since(t1)
+	}()
+	res := guarded(120*time.Second, func() string {
+		_, err := wd.api.ImportMnemonic(context.Background(), req)
+		return errClass(err)
+	})
+	d := time.Since(t0)
+	var other time.Duration
+	select {
+	case other = <-blocked:
+	case <-time.After(2 * time.Second):
+		other = -1
+	}
+	kind := "external"
+	if internal {
+		kind = "internal"
+	}
+	emit("H\t%s\t%d\t%s\t%d\t%.4f\t%s\t%.4f", scen, inst, kind, n, d.Seconds(), res.class, other.Seconds())
 	return 0
 }
 
